@@ -5,5 +5,7 @@ CONSTANTS
   Bits = {32, 64, 128}
   MaxSteps = 12
   Variant = "ok"
+  WithSv = TRUE
+  SvMode = "asWritten"
 INVARIANT Emit
 CHECK_DEADLOCK FALSE
